@@ -418,6 +418,8 @@ func main() {
 		run.Fatal("%v", err)
 	}
 	setup()
+	// Internal budget: under heavy machine load the run stops early with exhaustive:false (never a violation).
+	run.Budget(150*time.Second, 20*time.Minute)
 	if run.Replay != "" {
 		doReplay()
 		return
@@ -474,6 +476,9 @@ func main() {
 		a := newAcc()
 		defer a.flush()
 		defer guard("per-context", x)
+		if run.Expired() {
+			return
+		}
 		cs, k, hs := x.cs(), x.key(), x.hs()
 		sk, pks := libKeys(cs, k)
 		if !bytes.Equal(sk.Encode(), b32(k.d)) || !bytes.Equal(pks[0].pk.Encode(), k.raw) {
@@ -542,6 +547,9 @@ func main() {
 		a := newAcc()
 		defer a.flush()
 		defer guard("bitflip", x)
+		if run.Expired() {
+			return
+		}
 		_, pks := libKeys(x.cs(), x.key())
 		for b := (i % 8) * 64; b < (i%8+1)*64; b++ {
 			checkOne(a, x, pks[b%3], fmt.Sprintf("bitflip#%d", b), flip(x.base, b), fmt.Sprintf("p2/%s/%d", x.tag(), b))
@@ -558,6 +566,9 @@ func main() {
 		a := newAcc()
 		defer a.flush()
 		defer guard("cross", x)
+		if run.Expired() {
+			return
+		}
 		_, pks := libKeys(x.cs(), x.key())
 		for j, y := range contexts { // signature source
 			if i == j {
